@@ -138,7 +138,7 @@ pub fn run(ctx: &Ctx) {
     ctx.set("distinct_nontrivial", json!(all_distinct.len()));
     // adversarial names before the (long) searches: a wall budget that runs out cuts the deepest level of a
     // search, not this part
-    names_part(ctx);
+    names_part(ctx, &[2], true);
     let searches: Vec<(usize, usize)> = ctx.tier.pick(vec![(2, 4), (3, 1)], vec![(2, 8), (3, 2)]);
     for (aw, depth) in searches {
         let alphabet = materialise(history_cfg(aw));
@@ -166,6 +166,10 @@ pub fn run(ctx: &Ctx) {
         };
         let stats = search.run();
         record_bfs(ctx, &format!("extend over documents of weight <= {}", aw), &stats, events.len(), depth);
+    }
+    // the 3-subsets (thorough tier only) last: this is the part the wall budget is expected to cut
+    if ctx.tier == crate::ctx::Tier::Thorough {
+        names_part(ctx, &[3], false);
     }
     ctx.set(
         "rule",
@@ -204,7 +208,7 @@ pub fn replay(ctx: &Ctx, case: &Value) {
 }
 
 /// (c) adversarial names over small trees, as one document and split into two
-fn names_part(ctx: &Ctx) {
+fn names_part(ctx: &Ctx, ks: &[usize], with_pools: bool) {
     use super::names::*;
     let pool = pool(&[]);
     let params = ctx.tier.pick(
@@ -217,6 +221,9 @@ fn names_part(ctx: &Ctx) {
     let mut sets: Vec<(Vec<PoolName>, usize)> = super::c04::separator_sets().into_iter().map(|s| (s, 4)).collect();
     sets.push((super::c04::suffix_pool(), 3));
     sets.push((super::c04::numbering_pool(), 3));
+    if !with_pools {
+        sets.clear();
+    }
     for (set, k_set) in sets {
         let sp = TreeParams { min_nodes: if k_set == 4 { 3 } else { 2 }, max_nodes: 4, max_decorated: 0, root_from_subset: false, shard: (0, 1) };
         let sub4 = subsets(set.len(), k_set);
@@ -242,9 +249,7 @@ fn names_part(ctx: &Ctx) {
         );
         ctx.add("evaluations", res.accs.iter().sum::<u64>());
     }
-    // the thorough tier completes the 2-subsets (all the quick tier covers) before it starts on the
-    // 3-subsets, which the wall budget may cut
-    for k in ctx.tier.pick(vec![2usize], vec![2, 3]) {
+    for &k in ks {
     let subs = subsets(pool.len(), k);
     let res = par_for(
         subs.len() as u64,
